@@ -65,10 +65,13 @@ def check(rep, tier):
             ext = maxI - G.sum(axis=1)
             cls = [expected_class(arr, nz, int(e)) for e in ext]
             rep.case(key, nontrivial=len(set(cls)) > 1, sample=dict(arrangement=arr, shape=shape, classes=sorted(set(map(str, cls)))) if rng.random() < 0.03 else None)
-            k = {"int": 5, "ext": 5, "s0": 20, "s_sigma_rel": 0}
+            # position classes are geometry: they must not depend on the heat-transfer coefficients (incl. insulated batches, k_ext = 0)
+            k = {"int": rng.choice([5, 0, 50]), "ext": rng.choice([5, 0, 0, 40]), "s0": 20, "s_sigma_rel": 0}
+            rep.count("k_ext=0" if k["ext"] == 0 else "k_ext>0")
             try:
                 with impl.quiet():
                     S = sf.Snowflake(k=dict(k), N_vials=shape, configPath=cfg, opcond=op, dt=10, storeStates="all")
+                    fresh = {g: np.asarray(S.getVialGroup(g), dtype=bool) for g in GROUPS + ["all", "center"]}      # before anything was built
                     S.run()
                     masks = {g: np.asarray(S.getVialGroup(g), dtype=bool) for g in GROUPS + ["all", "center"]}
                     combos = [rng.sample(GROUPS + ["center"], rng.randint(2, 3)) for _ in range(8)]
@@ -105,6 +108,11 @@ def check(rep, tier):
                               dict(arrangement=arr, shape=shape, error=repr(e)[:500]))
                 continue
             # ---- oracle: the property stated directly -----------------------------------------------
+            for g in fresh:
+                if not np.array_equal(fresh[g], masks[g]):
+                    rep.violation("getVialGroup history", "%s (k=%r): getVialGroup(%r) is %s on the fresh object and %s after run()" % (
+                        key, k, g, np.nonzero(fresh[g])[0].tolist()[:8], np.nonzero(masks[g])[0].tolist()[:8]), dict(arrangement=arr, shape=shape, k=k, group=g))
+                    break
             slab = stats_df[stats_df.variable == "t_nucleation"].sort_values("vial")["group"].tolist()
             tl = traj_df[(traj_df.state == "temperature")]
             tl = tl[tl.Time == tl.Time.min()].sort_values("vial")["group"].tolist()
